@@ -71,11 +71,15 @@ def score_c08(chk: Check, ep: qos.Episode, res: qos.Result) -> None:
     # budget is spent (or the link / a write failed)
     faults = bool(res.conn_lost_at) or bool(res.paused) or any(v.get("fail") for v in ep.tx.values())
     for i, c in enumerate(ep.calls):
-        if faults or i not in res.outcomes or res.outcomes[i][1] != "err" or i not in res.started:
-            continue
+        if faults or i not in res.outcomes or res.outcomes[i][1] != "err" or i not in res.started or c["cmd"] == qos.HEADERLESS:
+            continue        # (a command that cannot be sent at all is refused at once: not a transmission that was given up)
         deadline = res.started[i] + min(c["timeout"], 20.0)
         if res.outcomes[i][0] < deadline - 1e-6 and len(by_call.get(i, [])) < limit_of(c):
-            chk.violation("c08.gave_up_early", f"call {i} (max_retries={c['max_retries']}, timeout={c['timeout']}, called at {res.started[i]}) was failed at "
+            # recorded finding: the echo arrives in the loop iteration in which the echo timer runs out, *behind* the timer task's step;
+            # the re-transmission already scheduled then finds the FSM waiting for the reply and fails the command with ProtocolFsmError
+            # ("Invalid state to send a command") although the frame was echoed and retries remain
+            fsm_race = res.outcomes[i][2].startswith("ProtocolFsmError") and ep.hop
+            chk.violation("c08.gave_up_early" + (".fsm-error-echo-behind-timer" if fsm_race else ""), f"call {i} (max_retries={c['max_retries']}, timeout={c['timeout']}, called at {res.started[i]}) was failed at "
                           f"{res.outcomes[i][0]} after {len(by_call.get(i, []))} of {limit_of(c)} transmissions: {res.outcomes[i][2][:60]}",
                           {"episode": ep.to_json()})
     # "with the wait doubling after each unanswered attempt": a command is re-transmitted only when a wait has run out, and the
@@ -100,7 +104,8 @@ def score_c08(chk: Check, ep: qos.Episode, res: qos.Result) -> None:
                 continue   # (a command sent in another device's name joins the queue only after its notice has gone out)
             ti, tj = res.started.get(i, 0), res.started.get(j, 0)
             both_queued_before = max(ti, tj) < min(started[i], started[j]) - EPS
-            first = (ep.calls[i]["prio"], res.seq.get(i, i)) < (ep.calls[j]["prio"], res.seq.get(j, j))
+            pi, pj = (0 if ep.calls[k]["prio"] is None else ep.calls[k]["prio"] for k in (i, j))      # (no preference = the default priority)
+            first = (pi, res.seq.get(i, i)) < (pj, res.seq.get(j, j))
             if both_queued_before and first and started[i] > started[j] + EPS and not res.conn_lost_at:
                 chk.violation("c08.order", f"call {i} (prio {ep.calls[i]['prio']}, queued {ti}) started at {started[i]} after call {j} "
                               f"(prio {ep.calls[j]['prio']}, queued {tj}) at {started[j]}", {"episode": ep.to_json()})
